@@ -340,3 +340,16 @@ def latejoin_scenarios(failing=False):
 POL_EAGER = ("P:observer,thread,loop,job,main", "P:observer,thread,job,loop,main")
 
 POL_ORDER = ("FIFO", "FIFO+rev", "JOBS", "JOBS+rev", "LIFO", "LIFO+rev")
+
+
+def carry_scenarios():
+    """Two consecutive experiments of one process; the second one takes as parameter the task object submitted in the first
+    (which failed, or succeeded there) without submitting it again."""
+    out = []
+    for kind in ("up", "ups", "holder", "pre", "explicit"):
+        for code in (1, 0):
+            for second_name in ("xp2", "xp1"):
+                ops = [XP("xp1", [J("a", 1, code=code), J("o", 4)]),
+                       XP(second_name, [J("b", 2, [("a", kind)]), J("c", 3), J("d", 5, [("b", "ups"), ("o", "up")])])]
+                out.append(sc(f"carry:{kind}:code{code}:{second_name}", "carry" + (":fail" if code else ""), [ops]))
+    return out
